@@ -812,16 +812,20 @@ class CSSStyleSheet(cssutils.stylesheets.StyleSheet):
                 and self.namespaces[rule.prefix] == rule.namespaceURI
             ):
                 # no doublettes
+                # save for possible reset: cleaning may remove other rules
+                # before a rule which is still in use rejects the cleaning
+                oldCssRules = list(self._cssRules)
                 self._cssRules.insert(index, rule)
                 if _clean:
                     try:
                         self._cleanNamespaces()
                     except xml.dom.DOMException:
-                        # e.g. the rule it replaces is still in use
-                        for i, r in enumerate(self._cssRules):
-                            if r is rule:
-                                del self._cssRules[i]
-                                break
+                        # e.g. the rule it replaces is still in use, reset
+                        for r in oldCssRules:
+                            # may have been detached while cleaning
+                            r._parentStyleSheet = self
+                        del self._cssRules[:]
+                        list.extend(self._cssRules, oldCssRules)
                         raise
 
             if rule not in self._cssRules:
